@@ -351,6 +351,10 @@ impl Document {
 
             // TODO: Allow spaces between `a` and `b`
 
+            if a.span.end != b.span.start {
+                continue;
+            }
+
             if let (TokenKind::Number(..), TokenKind::Word(..)) = (&a.kind, &b.kind) {
                 if let Some(found_suffix) = NumberSuffix::from_chars(self.get_span_content(&b.span))
                 {
@@ -438,6 +442,14 @@ impl Document {
         let mut remove_indices = VecDeque::with_capacity(matches.len());
 
         for m in matches {
+            // Only tokens that are adjacent in the source can be condensed into one.
+            if !self.tokens[m.start..m.end]
+                .windows(2)
+                .all(|w| w[0].span.end == w[1].span.start)
+            {
+                continue;
+            }
+
             remove_indices.extend(m.start + 1..m.end);
             self.tokens[m.start].span = self.tokens[m.into_iter()].span().unwrap();
             edit(&mut self.tokens[m.start]);
@@ -504,7 +516,12 @@ impl Document {
             let a = &self.tokens[cursor - 1];
             let b = &self.tokens[cursor];
 
-            let is_initialism_chunk = a.kind.is_word() && a.span.len() == 1 && b.kind.is_period();
+            let is_initialism_chunk = a.kind.is_word()
+                && a.span.len() == 1
+                && b.kind.is_period()
+                && a.span.end == b.span.start
+                && (initialism_start.is_none()
+                    || self.tokens[cursor - 2].span.end == a.span.start);
 
             if is_initialism_chunk {
                 if initialism_start.is_none() {
